@@ -244,6 +244,24 @@ def cfgCmd (st : St) : List String → St × String
     | _, _, _, _ => (st, "bad-op")
   | _ => (st, "bad-op")
 
+def startupFacts : Startup.Facts :=
+  { exportSetsRecordMarking := Gen.exportSetsRecordMarking,
+    portmapperSetsRecordMarking := Gen.portmapperSetsRecordMarking,
+    acceptLoopBranchesOnOption := Gen.acceptLoopBranchesOnRecordMarking }
+
+def startupCmd : List String → String
+  | [p] =>
+    let sp := match p with
+      | "export" => some Startup.StartPath.export
+      | "listen-rm" => some .listenRecordMarking
+      | "listen-default" => some .listenDefault
+      | "portmapper" => some .withPortmapper
+      | _ => none
+    match sp with
+    | some sp => if Startup.framing startupFacts sp == .recordMarking then "rm" else "raw"
+    | none => "bad-op"
+  | _ => "bad-op"
+
 def rlCmd (st : St) : List String → St × String
   | ["bucket", name, n, d, burst, now] =>
     match n.toNat?, d.toNat?, burst.toNat?, now.toNat? with
@@ -385,6 +403,7 @@ def step (st : St) (line : String) : St × String :=
   | "rl" :: args => rlCmd st args
   | "pm" :: args => pmCmd st args
   | "cfg" :: args => cfgCmd st args
+  | "startup" :: args => (st, startupCmd args)
   | ["reset"] => ({}, "ok")
   | _ => (st, "bad-op")
 
